@@ -242,6 +242,40 @@ class CoopEvent(object):
         return self.flag
 
 
+class CoopLock(object):
+    """Replacement for threading.Lock inside the library (AEBase.lock): never blocks the baton holder for real."""
+
+    def __init__(self):
+        self.held = False
+
+    def acquire(self, blocking=True, timeout=-1):
+        s = Sched.current
+        if s is None or s.aborting:
+            self.held = True
+            return True
+        if not blocking:
+            if self.held:
+                return False
+            self.held = True
+            return True
+        s.point('lock.acquire', cond=lambda: not self.held)
+        self.held = True
+        return True
+
+    def release(self):
+        self.held = False
+
+    def locked(self):
+        return self.held
+
+    def __enter__(self):
+        self.acquire()
+        return self
+
+    def __exit__(self, *a):
+        self.release()
+
+
 class PipeEnd(object):
     """One end of an in-memory full-duplex byte pipe (stands in for a connected TCP socket)."""
 
@@ -402,14 +436,15 @@ def apply_patches():
     e2.Patches.env = ADAPTER
     if _applied:
         return
-    from pynetdicom2 import dulprovider, asceprovider
-    for mod, name in ((dulprovider, 'queue'), (dulprovider, 'threading'), (asceprovider, 'time')):
+    from pynetdicom2 import dulprovider, asceprovider, applicationentity
+    for mod, name in ((dulprovider, 'queue'), (dulprovider, 'threading'), (asceprovider, 'time'), (applicationentity, 'Lock')):
         if not hasattr(mod, name):
             raise HarnessError('patch target %s.%s missing' % (mod.__name__, name))
     dulprovider.queue = types.SimpleNamespace(Queue=CoopQueue, Empty=_realqueue.Empty)
     dulprovider.threading = types.SimpleNamespace(Event=CoopEvent, Thread=threading.Thread, Lock=threading.Lock,
                                                   local=threading.local, get_ident=threading.get_ident)
     asceprovider.time = types.SimpleNamespace(time=lambda: cur().now, sleep=lambda d: cur().sleep(d))
+    applicationentity.Lock = CoopLock
 
     def start(prov):
         cur().spawn(prov.run, 'dul%d' % len(cur().threads))
